@@ -23,6 +23,7 @@ PROP = {
                + [{"name": "all", "quick": 0, "thorough": 2000000, "maxlen": 400},
                   {"name": "span_soak", "quick": 400, "thorough": 5000, "maxlen": 64},
                   {"name": "all_long", "quick": 600000, "thorough": 6000000, "maxlen": 400}],
+    "uchar": ["all_long"],
     "fuzz": [{"name": "all", "secs": 90, "maxlen": 400}],
 }
 
